@@ -379,5 +379,5 @@ Proof.
   - destruct (oentry_fails oe (find_obj d (oe_path oe))); [reflexivity | discriminate].
 Qed.
 
-Lemma tojson_numbers : forall f, tojson_null_model (TJNum f) = tojson_null_spec (TJNum f).
-Proof. reflexivity. Qed.
+Lemma tojson_refines : forall tv, tojson_null_model tv = tojson_null_spec tv.
+Proof. intros [f|f|]; reflexivity. Qed.
